@@ -223,6 +223,27 @@ def run_mixed(ctx, byte):
                 ctx.fail({"kind": "mixed", "dict": [repr(first), repr(second)]}, f"polynomial({{(0,): {first!r}, (1,): {second!r}}}) holds {got}", ["mixed", "dict", "value"])
 
 
+def run_model_promotion(ctx):
+    """numpy's promotion of several types at once is part of the model (`Np.DT.promoteAll`, a transcription of
+    PyArray_PromoteDTypeSequence for the builtin numeric types): every pair and triple of the 14 types and random tuples of
+    4-7 against numpy.result_type. A disagreement is an error of the model, never a finding about numpoly."""
+    import itertools
+    rng = ctx.rng("model-promotion")
+    tuples = [list(t) for n in (1, 2, 3) for t in itertools.product(DTYPES, repeat=n)]
+    for _ in range(400 if ctx.quick else 6000):
+        tuples.append([DTYPES[int(rng.integers(len(DTYPES)))] for _ in range(int(rng.integers(4, 8)))])
+    answers = run_driver([{"id": i, "op": "inferdtype", "cols": [[d, False] for d in t]} for i, t in enumerate(tuples)])
+    bad = []
+    for t, ans in zip(tuples, answers):
+        want = str(numpy.result_type(*[numpy.dtype(d) for d in t]))
+        if ans.get("nary") != want:
+            bad.append(f"{t}: model {ans.get('nary')}, numpy {want}")
+    ctx.count("model-promotion", len(tuples))
+    ctx.extra["model_promotion_cases"] = len(tuples)
+    if bad:
+        raise RuntimeError(f"Np.DT.promoteAll and numpy.result_type disagree on {len(bad)} of {len(tuples)} tuples:\n" + "\n".join(bad[:8]))
+
+
 def run_inferred_dtype(ctx, byte):
     """no dtype requested: the stored dtype is the promotion of all coefficient dtypes, whatever the retain flags and
     whichever coefficients are all zero - compared with the Lean model (`DT.inferDtype`, op inferdtype)"""
@@ -252,11 +273,11 @@ def run_inferred_dtype(ctx, byte):
                 # not a left fold of the pairwise table (int8, uint16, complex64 -> complex64, pairwise complex128); the model's
                 # `inferDtype` is that fold, exact for one or two coefficient types - where it differs from numpy for three it
                 # is counted as drift of the model, never as a failure of the implementation
-                want = str(numpy.result_type(*[numpy.dtype(d) for d in dts]))
+                want = ans["nary"]          # the model's n-ary promotion (validated against numpy by run_model_promotion)
+                if str(numpy.result_type(*[numpy.dtype(d) for d in dts])) != want:
+                    raise RuntimeError(f"Np.DT.promoteAll {want} != numpy.result_type for {dts}")
                 if ans["value"] != want:
-                    ctx.count("inferred-dtype.model-fold-differs-from-numpy-n-ary")
-                    if len(dts) <= 2:
-                        raise RuntimeError(f"Np.DT.inferDtype {ans['value']} != numpy.result_type {want} for {dts}")
+                    ctx.count("inferred-dtype.left-fold-differs-from-n-ary")
                 if str(p.dtype) != want or poisoned(p, byte):
                     ctx.fail(case, f"coefficients of dtypes {dts} (all-zero: {zero}) under retain_coefficients={rc}: stored dtype {p.dtype}, "
                                    f"numpy's promotion of all of them is {want}", ["inferred", "dtype"])
@@ -595,6 +616,7 @@ def run(ctx):
     ctx.exhaustive = True
     # the model's tables must be the working tree's: ask the driver what it believes about a few cells
     bytes_ = [0xA5] if ctx.quick else [0xA5, 0x5A]
+    run_model_promotion(ctx)
     for byte in bytes_:
         with poison(byte):
             run_constructors(ctx, byte)
